@@ -160,3 +160,13 @@ var _ = gen.Mix
 type monT = mon.Monitor
 
 func newMon() *mon.Monitor { return mon.NewMonitor() }
+
+// hookedReq returns the required observations of a suite; the ones that only
+// the verif hooks can produce are required only when the hooks are compiled in
+// (the fallback build without them still decides everything else).
+func hookedReq(always []string, hooked ...string) []string {
+	if hook.Enabled {
+		return append(always, hooked...)
+	}
+	return always
+}
